@@ -170,6 +170,30 @@ theorem getF_mkObj (fs : List (String × Option J)) (hnd : (fs.map (·.1)).Nodup
       rw [getF_cons_ne k k' o t hk', iht]
       simp [List.lookup, hk']
 
+theorem getFRaw_mkObj (fs : List (String × Option J)) (hnd : (fs.map (·.1)).Nodup) (k : String) :
+    getFRaw (mkObj fs) k = (fs.lookup k).join := by
+  induction fs with
+  | nil => rfl
+  | cons p t ih =>
+    obtain ⟨k', o⟩ := p
+    simp only [List.map_cons, List.nodup_cons] at hnd
+    have iht := ih hnd.2
+    by_cases hk : (k == k') = true
+    · have hkk : k = k' := by simpa using hk
+      subst hkk
+      cases o with
+      | none =>
+        rw [mkObj_cons_none, iht, lookup_none_of_not_mem t k hnd.1]
+        simp [List.lookup]
+      | some v => rw [mkObj_cons_some]; simp [getFRaw, List.lookup]
+    · have hk' : (k == k') = false := by simpa using hk
+      cases o with
+      | none => rw [mkObj_cons_none, iht]; simp [List.lookup, hk']
+      | some v =>
+        rw [mkObj_cons_some]
+        simp only [getFRaw, List.lookup, hk']
+        exact iht ▸ rfl
+
 theorem notNull_map {α} (o : Option α) (f : α → J) (h : ∀ a, f a ≠ .null) : NotNull (o.map f) := by
   cases o with
   | none => trivial
@@ -203,15 +227,17 @@ def IsAtomJ : J → Prop
 /-- a base type as a decoder can produce it from well-formed JSON -/
 structure BaseWF (b : BaseType) : Prop where
   enumAtoms : ∀ a ∈ b.enum, IsAtomJ a
+  /-- the degenerate `"enum": ["set", []]` (member present, no value) is not re-encoded -/
+  enumSet : b.enumSet = !b.enum.isEmpty
 
-theorem decodeEnum_encodeEnum (l : List J) (h : ∀ a ∈ l, IsAtomJ a) : decodeEnum (encodeEnum l) = .ok l := by
+theorem decodeEnum_encodeEnum (l : List J) (h : ∀ a ∈ l, IsAtomJ a) : decodeEnum (encodeEnum l) = .ok (l, !l.isEmpty) := by
   match l with
   | [] => rfl
   | [a] =>
     have := h a (by simp)
     cases a <;> simp_all [encodeEnum, decodeEnum, IsAtomJ]
   | a :: b :: t =>
-    simp [encodeEnum, decodeEnum, headIs, strEq, idx, isArr, assertArr, bind, Outcome.bind]
+    simp [encodeEnum, decodeEnum, headIs, strEq, idx, isArr, assertArr, bind, Outcome.bind, pure]
 
 theorem notNull_encodeEnum (l : List J) (h : ∀ a ∈ l, IsAtomJ a) : NotNull (encodeEnum l) := by
   match l with
@@ -248,8 +274,10 @@ theorem baseType_roundtrip (b : BaseType) (hwf : BaseWF b) : decodeBaseType (enc
   have hT : optStr (if b.type = "" then none else some (J.str b.type)) = .ok (if b.type = "" then none else some b.type) := by
     split <;> rfl
   simp [List.lookup, hT, hEnum, optNum_num, optInt_jInt, optStr_str, bind, Outcome.bind, pure]
+  have hes := hwf.enumSet
   cases b
   simp only [BaseType.mk.injEq, and_true]
+  simp only at hes
   split <;> simp_all
 
 theorem notNull_some_obj (m : List (String × J)) : NotNull (some (J.obj m)) := trivial
@@ -473,6 +501,172 @@ theorem select_keeps_empty_where (p : String → Bool) (t : String) :
      | _ => False) := by
   simp [encodeOperation, mkObj, getF, List.lookup, omitStr, omitList]
 
+/-! ### results, table updates, monitor requests and replies, table and database schemas -/
+
+theorem decodeStrMap_encodeStrMap {α β} (f : J → Outcome β) (enc : α → J) (g : α → β) (m : List (String × α))
+    (h : ∀ q ∈ m, f (enc q.2) = .ok (g q.2)) :
+    decodeStrMap f (encodeStrMap enc m) = .ok (m.map (fun q => (q.1, g q.2))) := by
+  simp only [decodeStrMap, encodeStrMap]
+  induction m with
+  | nil => rfl
+  | cons a t ih =>
+    have ha := h a (by simp)
+    have ht := ih (fun q hq => h q (by simp [hq]))
+    simp only [List.map_cons, mapO, ha]
+    rw [ht]
+
+theorem decodeStrMapPtr_encodeStrMap {α β} (f : J → Outcome β) (enc : α → J) (g : α → β) (m : List (String × α))
+    (hobj : ∀ a, ∃ o, enc a = .obj o) (h : ∀ q ∈ m, f (enc q.2) = .ok (g q.2)) :
+    decodeStrMapPtr f (encodeStrMap enc m) = .ok (m.map (fun q => (q.1, g q.2))) := by
+  have hfilter : (m.map (fun p => (p.1, enc p.2))).filter notNullEntry = m.map (fun p => (p.1, enc p.2)) := by
+    apply List.filter_eq_self.mpr
+    intro q hq
+    simp only [List.mem_map] at hq
+    obtain ⟨a, _, rfl⟩ := hq
+    obtain ⟨o, ho⟩ := hobj a.2
+    simp [notNullEntry, ho]
+  have := decodeStrMap_encodeStrMap f enc g m h
+  simp only [decodeStrMapPtr, encodeStrMap] at *
+  rw [hfilter]
+  exact this
+
+theorem optRowPtr_roundtrip (p : String → Bool) (n : Nat) (o : Option WRow) :
+    optRowPtr (n + 2) (o.map (encodeRow p)) = .ok (o.map WRow.toGo) := by
+  cases o with
+  | none => rfl
+  | some r => simp [optRowPtr, row_roundtrip p n r, WRow.toGo]
+
+theorem notNull_encodeRow (p : String → Bool) (o : Option WRow) : NotNull (o.map (encodeRow p)) := by
+  cases o <;> simp [NotNull, encodeRow]
+
+/-- **C12 (11)** operation results: count, error and details, the uuid (always
+    present), rows -/
+theorem result_roundtrip (p : String → Bool) (n : Nat) (r : WResult) :
+    decodeResult (n + 2) (encodeResult p r) = .ok r.toGo := by
+  have hrows := optList_omitList (decodeRow (n + 2)) (encodeRow p) WRow.toGo r.rows (fun x _ => row_roundtrip p n x)
+  have hnn : ∀ q ∈ [("count", if r.count = 0 then none else some (jInt r.count)), ("error", omitStr r.error),
+      ("details", omitStr r.details), ("uuid", some (encodeUUID p r.uuid)), ("rows", omitList (encodeRow p) r.rows)], NotNull q.2 := by
+    intro q hq
+    simp only [List.mem_cons, List.not_mem_nil, or_false] at hq
+    rcases hq with h | h | h | h | h <;> subst h
+    · split <;> simp [NotNull, jInt]
+    · exact notNull_omitStr _
+    · exact notNull_omitStr _
+    · simp [NotNull, encodeUUID]
+    · exact notNull_omitList _ _
+  have hraw := getFRaw_mkObj [("count", if r.count = 0 then none else some (jInt r.count)), ("error", omitStr r.error),
+      ("details", omitStr r.details), ("uuid", some (encodeUUID p r.uuid)), ("rows", omitList (encodeRow p) r.rows)] (by simp) "uuid"
+  simp only [decodeResult, encodeResult, getF_mkObj _ (by simp) hnn, hraw]
+  have hc : optInt (if r.count = 0 then none else some (jInt r.count)) = .ok (if r.count = 0 then none else some r.count) := by
+    split
+    · rfl
+    · simp [optInt, jInt]
+  simp [List.lookup, hc, hrows, optStr_omitStr', optUUID, uuid_roundtrip, bind, Outcome.bind, pure, WResult.toGo, ifGetD]
+  split <;> simp_all
+
+/-- **C12 (12)** RFC 7047 row updates: old and new, each present or absent -/
+theorem rowUpdate_roundtrip (p : String → Bool) (n : Nat) (u : WRowUpdate) :
+    decodeRowUpdate (n + 2) (encodeRowUpdate p u) = .ok u.toGo := by
+  have hnn : ∀ q ∈ [("new", u.new.map (encodeRow p)), ("old", u.old.map (encodeRow p))], NotNull q.2 := by
+    intro q hq
+    simp only [List.mem_cons, List.not_mem_nil, or_false] at hq
+    rcases hq with h | h <;> subst h <;> exact notNull_encodeRow p _
+  simp only [decodeRowUpdate, encodeRowUpdate, getF_mkObj _ (by simp) hnn]
+  simp [List.lookup, optRowPtr_roundtrip, bind, Outcome.bind, pure, WRowUpdate.toGo]
+
+/-- **C12 (13)** update2 / update3 row updates: initial, insert, modify, delete -/
+theorem rowUpdate2_roundtrip (p : String → Bool) (n : Nat) (u : WRowUpdate2) :
+    decodeRowUpdate2 (n + 2) (encodeRowUpdate2 p u) = .ok u.toGo := by
+  have hnn : ∀ q ∈ [("initial", u.initial.map (encodeRow p)), ("insert", u.insert.map (encodeRow p)),
+      ("modify", u.modify.map (encodeRow p)), ("delete", u.delete.map (encodeRow p))], NotNull q.2 := by
+    intro q hq
+    simp only [List.mem_cons, List.not_mem_nil, or_false] at hq
+    rcases hq with h | h | h | h <;> subst h <;> exact notNull_encodeRow p _
+  simp only [decodeRowUpdate2, encodeRowUpdate2, getF_mkObj _ (by simp) hnn]
+  simp [List.lookup, optRowPtr_roundtrip, bind, Outcome.bind, pure, WRowUpdate2.toGo]
+
+/-- **C12 (14)** table updates in both formats: every table, every row -/
+theorem tableUpdates_roundtrip (p : String → Bool) (n : Nat) (tu : List (String × List (String × WRowUpdate))) :
+    decodeTableUpdates (decodeRowUpdate (n + 2)) (encodeTableUpdates (encodeRowUpdate p) tu) =
+      .ok (tu.map (fun t => (t.1, t.2.map (fun q => (q.1, q.2.toGo))))) := by
+  apply decodeStrMap_encodeStrMap
+  intro t _
+  exact decodeStrMapPtr_encodeStrMap _ _ _ _ (fun a => ⟨_, rfl⟩) (fun q _ => rowUpdate_roundtrip p n q.2)
+
+theorem tableUpdates2_roundtrip (p : String → Bool) (n : Nat) (tu : List (String × List (String × WRowUpdate2))) :
+    decodeTableUpdates (decodeRowUpdate2 (n + 2)) (encodeTableUpdates (encodeRowUpdate2 p) tu) =
+      .ok (tu.map (fun t => (t.1, t.2.map (fun q => (q.1, q.2.toGo))))) := by
+  apply decodeStrMap_encodeStrMap
+  intro t _
+  exact decodeStrMapPtr_encodeStrMap _ _ _ _ (fun a => ⟨_, rfl⟩) (fun q _ => rowUpdate2_roundtrip p n q.2)
+
+/-- **C12 (15)** monitor_cond_since replies -/
+theorem condSince_roundtrip (p : String → Bool) (n : Nat) (found : Bool) (txn : String)
+    (tu : List (String × List (String × WRowUpdate2))) :
+    decodeCondSince (decodeRowUpdate2 (n + 2)) (encodeCondSince (encodeRowUpdate2 p) found txn tu) =
+      .ok (found, txn, tu.map (fun t => (t.1, t.2.map (fun q => (q.1, q.2.toGo))))) := by
+  simp [decodeCondSince, encodeCondSince, tableUpdates2_roundtrip]
+
+/-- **C12 (16)** monitor requests: columns, conditions, select -/
+theorem monitorRequest_roundtrip (p : String → Bool) (n : Nat) (r : WMonitorRequest)
+    (hw : ∀ c ∈ r.where_, c.2.1 ∈ condFunctions) :
+    decodeMonitorRequest (n + 2) (encodeMonitorRequest p r) =
+      .ok { columns := r.columns, where_ := r.where_.map tripleToGo, select := r.select } := by
+  have hcols := optList_omitList strOf J.str id r.columns (fun _ _ => rfl)
+  have hwhere := optList_omitList (decodeCondition (n + 2)) (encodeCondition p) tripleToGo r.where_
+    (fun c hc => condition_roundtrip p n c.1 c.2.1 c.2.2 (hw c hc))
+  have hsel : optSelect (r.select.map encodeMonitorSelect) = .ok r.select := by
+    cases hs : r.select with
+    | none => rfl
+    | some s => simp [optSelect, monitorSelect_roundtrip]
+  have hnn : ∀ q ∈ [("columns", omitList J.str r.columns), ("where", omitList (encodeCondition p) r.where_),
+      ("select", r.select.map encodeMonitorSelect)], NotNull q.2 := by
+    intro q hq
+    simp only [List.mem_cons, List.not_mem_nil, or_false] at hq
+    rcases hq with h | h | h <;> subst h
+    · exact notNull_omitList _ _
+    · exact notNull_omitList _ _
+    · cases r.select <;> simp [NotNull, encodeMonitorSelect]
+  simp only [decodeMonitorRequest, encodeMonitorRequest, getF_mkObj _ (by simp) hnn]
+  simp [List.lookup, hcols, hwhere, hsel, bind, Outcome.bind, pure]
+
+/-- **C12 (17)** table schemas: columns (each a column schema), indexes, isRoot -/
+theorem tableSchema_roundtrip (t : TableSchemaW) (hwf : ∀ q ∈ t.columns, ColTypeWF q.2.type) :
+    decodeTableSchema (encodeTableSchema t) = .ok t := by
+  have hcols := decodeStrMapPtr_encodeStrMap decodeColumnSchema encodeColumnSchema id t.columns
+    (fun a => ⟨_, rfl⟩) (fun q hq => columnSchema_roundtrip q.2 (hwf q hq))
+  have hidx := optList_omitList strList (fun (ix : List String) => J.arr (ix.map J.str)) id t.indexes
+    (fun ix _ => by simpa [strList] using mapO_map_ok strOf J.str id ix (fun _ _ => rfl))
+  have hnn : ∀ q ∈ [("columns", some (encodeStrMap encodeColumnSchema t.columns)),
+      ("indexes", omitList (fun (ix : List String) => J.arr (ix.map J.str)) t.indexes),
+      ("isRoot", if t.isRoot then some (J.bool true) else none)], NotNull q.2 := by
+    intro q hq
+    simp only [List.mem_cons, List.not_mem_nil, or_false] at hq
+    rcases hq with h | h | h <;> subst h
+    · simp [NotNull, encodeStrMap]
+    · exact notNull_omitList _ _
+    · split <;> simp [NotNull]
+  simp only [decodeTableSchema, encodeTableSchema, getF_mkObj _ (by simp) hnn]
+  have hroot : optBool (if t.isRoot = true then some (J.bool true) else none) = .ok (if t.isRoot = true then some true else none) := by
+    split <;> rfl
+  simp [List.lookup, hcols, hidx, hroot, bind, Outcome.bind, pure]
+  cases t with
+  | mk columns indexes isRoot => cases isRoot <;> simp
+
+/-- **C12 (18)** database schemas: name, version and every table -/
+theorem databaseSchema_roundtrip (d : DatabaseSchemaW)
+    (hwf : ∀ t ∈ d.tables, ∀ q ∈ t.2.columns, ColTypeWF q.2.type) :
+    decodeDatabaseSchema (encodeDatabaseSchema d) = .ok d := by
+  have htab := decodeStrMap_encodeStrMap decodeTableSchema encodeTableSchema id d.tables
+    (fun t ht => tableSchema_roundtrip t.2 (hwf t ht))
+  have hnn : ∀ q ∈ [("name", some (J.str d.name)), ("version", some (J.str d.version)),
+      ("tables", some (encodeStrMap encodeTableSchema d.tables))], NotNull q.2 := by
+    intro q hq
+    simp only [List.mem_cons, List.not_mem_nil, or_false] at hq
+    rcases hq with h | h | h <;> subst h <;> simp [NotNull, encodeStrMap]
+  simp only [decodeDatabaseSchema, encodeDatabaseSchema, getF_mkObj _ (by simp) hnn]
+  simp [List.lookup, htab, optStr, bind, Outcome.bind, pure]
+
 /-! ### the decoded form is well-formed: a decoded schema re-encodes to JSON that decodes to the same schema -/
 
 theorem decoded_baseType_reencodes (j : J) (b : BaseType) (_h : decodeBaseType j = .ok b) (hwf : BaseWF b) :
@@ -491,7 +685,7 @@ theorem pinned_loses_minLength :
   decide
 
 /-! non-vacuity: a fully constrained base type meets the hypotheses -/
-example : BaseWF { type := "integer", enum := [.num 1, .num 2], minInteger := some 0, maxInteger := some 10 } :=
-  ⟨by intro a ha; simp at ha; rcases ha with h | h <;> subst h <;> trivial⟩
+example : BaseWF { type := "integer", enum := [.num 1, .num 2], enumSet := true, minInteger := some 0, maxInteger := some 10 } :=
+  ⟨by intro a ha; simp at ha; rcases ha with h | h <;> subst h <;> trivial, by simp⟩
 
 end Ovsdb.C12
